@@ -189,11 +189,30 @@ func evalC15Set(v *engine.Verdict, x *C15Case) {
 	// expected token to be unique: only when no two values share a type.
 	typeSeen := map[int]bool{}
 	uniqTypes := true
-	for _, w := range x.Vals {
-		if typeSeen[w.Type] || engine.IsIface(w.Type) {
+	hasIface := false
+	for i, w := range x.Vals {
+		if typeSeen[w.Type] {
 			uniqTypes = false
 		}
 		typeSeen[w.Type] = true
+		if engine.IsIface(w.Type) {
+			// an interface-typed value travels under its interface type
+			// (stored as such, not as a bare concrete value), and no other
+			// value of the set may implement that interface: the route to
+			// each parameter of the consumer stays unique
+			hasIface = true
+			if w.Raw {
+				uniqTypes = false
+			}
+			for j, o := range x.Vals {
+				if j != i && (engine.Implements(o.Type, w.Type) || engine.Implements(o.Dyn, w.Type)) {
+					uniqTypes = false
+				}
+			}
+		}
+	}
+	if uniqTypes && hasIface {
+		v.Class("args-round-trip-with-interface-typed-value")
 	}
 	if uniqTypes && len(x.Vals) > 0 {
 		inSet, err := argmapper.NewValueSet(vsValues(x.Vals))
